@@ -101,9 +101,12 @@ func runC14(e *Engine, r *Report, tier string) {
 	r.Rule("R2", "bank: SendCoins(from, to, GetAllBalances(from))", 1, "")
 	r.Rule("R3", "signature by target over (from,to); from != to; migration-record lookups first", 4, "")
 	r.Rule("R4", "all Validate before all Execute; record after", 3, "")
+	r.Rule("R8", "records to migrate are enumerated without a retrieval cap (a capped getter silently leaves the rest with the source)", 0, "")
 	r.Rule("R7", "a party with a validator record is refused unconditionally (source and target)", 2, "validator lookups in the staking migrator's Validate")
 	r.Rule("R6", "staking key constructors receive the record's source / destination validator in the matching parameter", 6, "calls from the migrator to key constructors with valSrc / valDst parameters")
 	r.Rule("R5", "open-proposal scan covers the whole queues (unbounded range, callbacks never stop the walk without an error); proposer/deposit/vote checked for source and target", 7, "2 queue scans + 3 participation kinds")
+
+	e.c14UncappedEnumeration(r)
 
 	// locate migrator implementers (interface MigrateI)
 	impls := e.TypesImplementing(ModPath+"/x/migrate/keeper", "MigrateI")
@@ -704,5 +707,43 @@ func runC14(e *Engine, r *Report, tier string) {
 	}
 	if n7 < 2 {
 		r.Fail("R7", "operator lookups", "", fmt.Sprintf("UNRESOLVED-ANCHOR: %d validator lookups in the staking migrator's Validate (source and target expected)", n7))
+	}
+}
+
+
+// c14UncappedEnumeration (R8): the SDK's list getters take a `maxRetrieve uint16` and stop silently when it is reached. A
+// migrator function that rewrites the store (Execute) must not obtain the records it moves through such a getter unless the
+// cap is the type's maximum; Validate's existence probes (cap 1, result only measured) are not enumerations.
+func (e *Engine) c14UncappedEnumeration(r *Report) {
+	n := 0
+	for _, fn := range e.Funcs {
+		if !strings.Contains(fnPkgPath(fn), "/x/migrate/keeper") || !e.directWrite(rootFn(fn)) {
+			continue
+		}
+		allCalls(fn, func(c ssa.CallInstruction) {
+			sig := c.Common().Signature()
+			if sig == nil {
+				return
+			}
+			ps := sig.Params()
+			for i := 0; i < ps.Len(); i++ {
+				p := ps.At(i)
+				b, ok := p.Type().Underlying().(*types.Basic)
+				if !ok || b.Kind() != types.Uint16 || !strings.Contains(strings.ToLower(p.Name()), "max") {
+					continue
+				}
+				args := c.Common().Args
+				if i >= len(args) {
+					continue
+				}
+				n++
+				ck := e.FnKey(fn) + " " + callName(c) + " " + p.Name()
+				k, isK := constInt(args[i])
+				r.Check(isK && k == 65535, "R8", ck, e.InstrPos(c), "retrieval cap is the maximum of its type", "the records to migrate are read through "+callName(c)+" with a retrieval cap that is not the type's maximum: the getter stops silently at the cap, the remaining records stay with the source although the migration is recorded as done")
+			}
+		})
+	}
+	if n == 0 {
+		r.Ok("R8", "capped getters in store-rewriting migrator code", "", "none: records are enumerated by prefix iteration")
 	}
 }
